@@ -1,30 +1,57 @@
 (** C35 — shard merging reports success only when it merged, and never duplicates.
-    Statements only; proofs are in Proofs/MergeDriver{Facts,Merge,Explode}.v over Model/MergeDriver.v.
+    Statements only; proofs are in Proofs/MergeDriver{Facts,Merge,Explode,Stale}.v over Model/MergeDriver.v.
 
-    Reading guide.  [run_merge plan s0 names] / [run_explode plan shuf_rename shuf_cleanup s0 c] run the model
-    of `zoekt-merge-index merge names...` / `index.Explode(dir, c)` from the directory state [s0] where
+    Reading guide.  [run_merge plan s0 names] / [run_explode plan shuf_rename shuf_cleanup shuf_stale s0 c] run the
+    model of `zoekt-merge-index merge names...` / `index.Explode(dir, c)` from the directory state [s0] where
     [plan o k = true] makes the k-th execution of operation [o] fail (ANY set of failing operations: open,
     mkdir, create-temp, write, rename, remove), on top of the failures the state itself causes (missing file,
     directory in the way).  [crash_states w] is the state before every operation plus the final state, i.e.
     everything a kill at any point can leave behind.  [no_dup s]: no repository is alive (non-tombstoned, in a
-    loadable *.zoekt file, sidecar .meta applied) in two shards.  *.tmp names are never visible. *)
-From ZV Require Import Lib.Base Model.MergeDriver Proofs.MergeDriverFacts Proofs.MergeDriverMerge Proofs.MergeDriverExplode.
+    loadable *.zoekt file, sidecar .meta applied) in two shards.  *.tmp names are never visible.
+
+    The "stale .meta" question.  parseMetadata prefers <shard>.meta over the shard's own repository list, so a
+    sidecar that waits at the name under which merge / Explode publish a new shard is ADOPTED by it.  Such
+    sidecars are reachable ([C35_orphan_sidecar_reachable_*]: a kill between the two removals of
+    IndexFilePaths = [shard, shard.meta]).  The drivers before the repair (/repo commit in
+    props/C35/known-findings.json) then report success although a repository is not alive
+    ([*_before_fix_refuted]); they satisfy the property only under [*_dst_clean]
+    ([*_before_fix_under_dst_clean]).  The repaired drivers (the current /repo; [run_merge], [run_explode]) remove
+    a sidecar at the destination before the publishing rename; the theorems about them assume only that a stale
+    sidecar is an ORPHAN (no shard of that name beside it; implied by [*_dst_clean]), which is what the crash
+    leaves.  That residue cannot be dropped in this model, where shard contents are not tied to file names
+    ([C35_explode_no_duplicate_visibility_needs_orphan_hypothesis]). *)
+From ZV Require Import Lib.Base Model.MergeDriver Proofs.MergeDriverFacts Proofs.MergeDriverMerge Proofs.MergeDriverExplode
+  Proofs.MergeDriverStale.
 From Coq Require Import Permutation.
 
-(** hypothesis "no stale sidecar at the destination": see NOTES.md (a leftover <dst>.meta would be adopted by
-    the new shard — parseMetadata prefers the sidecar — and is outside the programs' control) *)
+(** no stale sidecar at the destination name(s) at all (hypothesis of the theorems about the code BEFORE the repair) *)
 Definition merge_dst_clean (s0 : fs) (names : list zname) : Prop :=
   forall d, merge_dst s0 names = Some d -> s0 (PMeta d) = None \/ In d names.
 Definition explode_dst_clean (s0 : fs) (c : zname) : Prop :=
   forall rs r, eff s0 c = Some rs -> In r (alive rs) -> s0 (PMeta (ZSimple (rm_id r))) = None \/ ZSimple (rm_id r) = c.
+(** a stale sidecar at a destination name, if any, is an orphan: there is no shard of that name (or the name is
+    an input, which merge / Explode delete together with its sidecar) *)
+Definition merge_dst_sidecar_orphan (s0 : fs) (names : list zname) : Prop :=
+  forall d, merge_dst s0 names = Some d -> s0 (PMeta d) = None \/ s0 (PZ d) = None \/ In d names.
+Definition explode_dst_sidecar_orphan (s0 : fs) (c : zname) : Prop :=
+  forall rs r, eff s0 c = Some rs -> In r (alive rs) ->
+    s0 (PMeta (ZSimple (rm_id r))) = None \/ s0 (PZ (ZSimple (rm_id r))) = None \/ ZSimple (rm_id r) = c.
 
+Lemma merge_clean_orphan : forall s0 names, merge_dst_clean s0 names -> merge_dst_sidecar_orphan s0 names.
+Proof. intros s0 names H d Hd. destruct (H d Hd); auto. Qed.
+Lemma explode_clean_orphan : forall s0 c, explode_dst_clean s0 c -> explode_dst_sidecar_orphan s0 c.
+Proof. intros s0 c H rs r He Hr. destruct (H rs r He Hr); auto. Qed.
+
+(** ======================= the current (repaired) drivers ======================= *)
 Theorem C35_merge_no_duplicate_visibility :
   forall (plan : op -> nat -> bool) (s0 : fs) (names : list zname),
-    no_dup s0 -> merge_dst_clean s0 names ->
+    no_dup s0 -> merge_dst_sidecar_orphan s0 names ->
     forall r w, run_merge plan s0 names = (r, w) -> Forall no_dup (crash_states w).
 Proof.
   intros plan s0 names Hnd Hm r w E.
-  exact (proj2 (hoare_run _ _ _ _ s0 r w (merge_spec plan s0 Hnd names Hm) eq_refl Hnd E)).
+  assert (Hm' : forall d, merge_dst s0 names = Some d -> s0 (PMeta d) = None \/ In d names \/ (true = true /\ s0 (PZ d) = None)).
+  { intros d Hd. destruct (Hm d Hd) as [H|[H|H]]; auto. }
+  exact (proj2 (hoare_run _ _ _ _ s0 r w (merge_spec plan s0 Hnd names true Hm') eq_refl Hnd E)).
 Qed.
 Print Assumptions C35_merge_no_duplicate_visibility.
 
@@ -32,14 +59,16 @@ Print Assumptions C35_merge_no_duplicate_visibility.
     in an input is alive in it, and every input shard (other than a same-named one it replaced) is gone *)
 Theorem C35_merge_success_truthful :
   forall (plan : op -> nat -> bool) (s0 : fs) (names : list zname),
-    no_dup s0 -> merge_dst_clean s0 names ->
+    no_dup s0 -> merge_dst_sidecar_orphan s0 names ->
     forall x w, run_merge plan s0 names = (ROk x, w) ->
     exists d, x = Some d /\ merge_dst s0 names = Some d /\
               (forall z r, In z names -> In r (vis s0 z) -> In r (vis (w_fs w) d)) /\
               (forall z, In z names -> z <> d -> w_fs w (PZ z) = None).
 Proof.
   intros plan s0 names Hnd Hm x w E.
-  destruct (hoare_run _ _ _ _ s0 _ w (merge_spec plan s0 Hnd names Hm) eq_refl Hnd E) as [HQ _].
+  assert (Hm' : forall d, merge_dst s0 names = Some d -> s0 (PMeta d) = None \/ In d names \/ (true = true /\ s0 (PZ d) = None)).
+  { intros d Hd. destruct (Hm d Hd) as [H|[H|H]]; auto. }
+  destruct (hoare_run _ _ _ _ s0 _ w (merge_spec plan s0 Hnd names true Hm') eq_refl Hnd E) as [HQ _].
   simpl in HQ. destruct x as [d|]; [|destruct HQ].
   destruct HQ as [shards [Hp [Hd [He Hg]]]]. exists d. split; auto. split.
   { unfold merge_dst. rewrite Hp. subst d. reflexivity. }
@@ -50,34 +79,144 @@ Qed.
 Print Assumptions C35_merge_success_truthful.
 
 Theorem C35_explode_no_duplicate_visibility :
-  forall (plan : op -> nat -> bool) (shuf_rename shuf_cleanup : shuffle),
-    (forall l, Permutation (shuf_rename l) l) ->
-    forall (s0 : fs) (c : zname), no_dup s0 -> explode_dst_clean s0 c ->
-    forall r w, run_explode plan shuf_rename shuf_cleanup s0 c = (r, w) -> Forall no_dup (crash_states w).
+  forall (plan : op -> nat -> bool) (shuf_rename shuf_cleanup shuf_stale : shuffle),
+    (forall l, Permutation (shuf_rename l) l) -> (forall l, Permutation (shuf_stale l) l) ->
+    forall (s0 : fs) (c : zname), no_dup s0 -> explode_dst_sidecar_orphan s0 c ->
+    forall r w, run_explode plan shuf_rename shuf_cleanup shuf_stale s0 c = (r, w) -> Forall no_dup (crash_states w).
 Proof.
-  intros plan sr sc Hperm s0 c Hnd Hm r w E.
+  intros plan sr sc st Hperm Hperm' s0 c Hnd Hm r w E.
   destruct (eff s0 c) as [rs|] eqn:He.
-  - exact (proj2 (hoare_run _ _ _ _ s0 r w (explode_spec plan sr sc Hperm s0 Hnd c rs He (fun r0 => Hm rs r0 He)) eq_refl Hnd E)).
-  - exact (proj2 (hoare_run _ _ _ _ s0 r w (explode_spec_none plan sr sc s0 c Hnd He) eq_refl Hnd E)).
+  - assert (Hm' : forall r0, In r0 (alive rs) -> s0 (PMeta (ZSimple (rm_id r0))) = None \/ ZSimple (rm_id r0) = c \/
+                    (true = true /\ s0 (PZ (ZSimple (rm_id r0))) = None)).
+    { intros r0 Hr0. destruct (Hm rs r0 He Hr0) as [H|[H|H]]; auto. }
+    exact (proj2 (hoare_run _ _ _ _ s0 r w (explode_spec plan sr sc st Hperm Hperm' s0 Hnd c rs He true Hm') eq_refl Hnd E)).
+  - exact (proj2 (hoare_run _ _ _ _ s0 r w (explode_spec_none plan sr sc st true s0 c Hnd He) eq_refl Hnd E)).
 Qed.
 Print Assumptions C35_explode_no_duplicate_visibility.
 
 (** a nil error means: every repository that was alive in the compound shard is now alive in its own simple
     shard, and the compound shard is gone (unless it carried a simple shard's name and was replaced) *)
 Theorem C35_explode_success_truthful :
-  forall (plan : op -> nat -> bool) (shuf_rename shuf_cleanup : shuffle),
-    (forall l, Permutation (shuf_rename l) l) ->
-    forall (s0 : fs) (c : zname), no_dup s0 -> explode_dst_clean s0 c ->
-    forall x w, run_explode plan shuf_rename shuf_cleanup s0 c = (ROk x, w) ->
+  forall (plan : op -> nat -> bool) (shuf_rename shuf_cleanup shuf_stale : shuffle),
+    (forall l, Permutation (shuf_rename l) l) -> (forall l, Permutation (shuf_stale l) l) ->
+    forall (s0 : fs) (c : zname), no_dup s0 -> explode_dst_sidecar_orphan s0 c ->
+    forall x w, run_explode plan shuf_rename shuf_cleanup shuf_stale s0 c = (ROk x, w) ->
     (forall r, In r (vis s0 c) -> vis (w_fs w) (ZSimple r) = [r]) /\
     ((forall r, c <> ZSimple r) -> w_fs w (PZ c) = None).
 Proof.
-  intros plan sr sc Hperm s0 c Hnd Hm x w E.
+  intros plan sr sc st Hperm Hperm' s0 c Hnd Hm x w E.
   destruct (eff s0 c) as [rs|] eqn:He.
-  - exact (proj1 (hoare_run _ _ _ _ s0 _ w (explode_spec plan sr sc Hperm s0 Hnd c rs He (fun r0 => Hm rs r0 He)) eq_refl Hnd E)).
-  - destruct (hoare_run _ _ _ _ s0 _ w (explode_spec_none plan sr sc s0 c Hnd He) eq_refl Hnd E) as [HQ _]. discriminate.
+  - assert (Hm' : forall r0, In r0 (alive rs) -> s0 (PMeta (ZSimple (rm_id r0))) = None \/ ZSimple (rm_id r0) = c \/
+                    (true = true /\ s0 (PZ (ZSimple (rm_id r0))) = None)).
+    { intros r0 Hr0. destruct (Hm rs r0 He Hr0) as [H|[H|H]]; auto. }
+    exact (proj1 (hoare_run _ _ _ _ s0 _ w (explode_spec plan sr sc st Hperm Hperm' s0 Hnd c rs He true Hm') eq_refl Hnd E)).
+  - destruct (hoare_run _ _ _ _ s0 _ w (explode_spec_none plan sr sc st true s0 c Hnd He) eq_refl Hnd E) as [HQ _]. discriminate.
 Qed.
 Print Assumptions C35_explode_success_truthful.
+
+(** ======================= orphan sidecars are reachable ======================= *)
+(** some kill point of a fault-free merge / Explode of a shard that HAS a sidecar leaves the sidecar without
+    the shard (also true of the repaired drivers: the repair is about not adopting such a leftover) *)
+Theorem C35_orphan_sidecar_reachable_merge :
+  exists (plan : op -> nat -> bool) (s0 : fs) (names : list zname) (z : zname),
+    no_dup s0 /\ s0 (PZ z) <> None /\
+    exists r w s, run_merge plan s0 names = (r, w) /\ In s (crash_states w) /\
+                  s (PMeta z) <> None /\ s (PZ z) = None.
+Proof. exact orphan_reachable_merge. Qed.
+Print Assumptions C35_orphan_sidecar_reachable_merge.
+Theorem C35_orphan_sidecar_reachable_explode :
+  exists (plan : op -> nat -> bool) (sr sc st : shuffle) (s0 : fs) (c : zname),
+    no_dup s0 /\ s0 (PZ c) <> None /\
+    exists r w s, run_explode plan sr sc st s0 c = (r, w) /\ In s (crash_states w) /\
+                  s (PMeta c) <> None /\ s (PZ c) = None.
+Proof. exact orphan_reachable_explode. Qed.
+Print Assumptions C35_orphan_sidecar_reachable_explode.
+
+(** ======================= the drivers BEFORE the "stale .meta" repair ======================= *)
+(** with an orphan sidecar at the destination: success reported, an input repository not alive afterwards *)
+Theorem C35_merge_success_truthful_before_fix_refuted :
+  exists (plan : op -> nat -> bool) (s0 : fs) (names : list zname) (d : zname) (w : world),
+    no_dup s0 /\ (s0 (PZ d) = None /\ s0 (PMeta d) <> None) /\
+    run_merge_before_fix plan s0 names = (ROk (Some d), w) /\
+    exists z r, In z names /\ In r (vis s0 z) /\ ~ In r (vis (w_fs w) d).
+Proof. exact merge_success_truthful_before_fix_refuted. Qed.
+Print Assumptions C35_merge_success_truthful_before_fix_refuted.
+Theorem C35_explode_success_truthful_before_fix_refuted :
+  exists (plan : op -> nat -> bool) (sr sc st : shuffle) (s0 : fs) (c : zname) (x : option zname) (w : world),
+    (forall l, sr l = l) /\ no_dup s0 /\
+    run_explode_before_fix plan sr sc st s0 c = (ROk x, w) /\
+    exists r, In r (vis s0 c) /\ s0 (PZ (ZSimple r)) = None /\ s0 (PMeta (ZSimple r)) <> None /\
+              vis (w_fs w) (ZSimple r) = [].
+Proof. exact explode_success_truthful_before_fix_refuted. Qed.
+Print Assumptions C35_explode_success_truthful_before_fix_refuted.
+(** duplicates before the repair: only with an orphan sidecar naming a repository foreign to the file name it
+    sits at (model-level witnesses; no tool writes such a sidecar) *)
+Theorem C35_merge_no_duplicate_visibility_before_fix_refuted :
+  exists (plan : op -> nat -> bool) (s0 : fs) (names : list zname) (r : res) (w : world),
+    no_dup s0 /\ run_merge_before_fix plan s0 names = (r, w) /\ ~ no_dup (w_fs w).
+Proof. exact merge_no_duplicate_visibility_before_fix_refuted. Qed.
+Print Assumptions C35_merge_no_duplicate_visibility_before_fix_refuted.
+Theorem C35_explode_no_duplicate_visibility_before_fix_refuted :
+  exists (plan : op -> nat -> bool) (sr sc st : shuffle) (s0 : fs) (c : zname) (r : res) (w : world),
+    (forall l, sr l = l) /\ no_dup s0 /\ run_explode_before_fix plan sr sc st s0 c = (r, w) /\ ~ no_dup (w_fs w).
+Proof. exact explode_no_duplicate_visibility_before_fix_refuted. Qed.
+Print Assumptions C35_explode_no_duplicate_visibility_before_fix_refuted.
+
+(** what the code before the repair did satisfy: everything, PROVIDED no stale sidecar waits at a destination *)
+Theorem C35_merge_before_fix_under_dst_clean :
+  forall (plan : op -> nat -> bool) (s0 : fs) (names : list zname),
+    no_dup s0 -> merge_dst_clean s0 names ->
+    forall r w, run_merge_before_fix plan s0 names = (r, w) ->
+    Forall no_dup (crash_states w) /\
+    forall x, r = ROk x ->
+      exists d, x = Some d /\ merge_dst s0 names = Some d /\
+                (forall z r, In z names -> In r (vis s0 z) -> In r (vis (w_fs w) d)) /\
+                (forall z, In z names -> z <> d -> w_fs w (PZ z) = None).
+Proof.
+  intros plan s0 names Hnd Hm r w E.
+  assert (Hm' : forall d, merge_dst s0 names = Some d -> s0 (PMeta d) = None \/ In d names \/ (false = true /\ s0 (PZ d) = None)).
+  { intros d Hd. destruct (Hm d Hd) as [H|H]; auto. }
+  destruct (hoare_run _ _ _ _ s0 _ w (merge_spec plan s0 Hnd names false Hm') eq_refl Hnd E) as [HQ HS].
+  split; [exact HS|]. intros x ->.
+  simpl in HQ. destruct x as [d|]; [|destruct HQ].
+  destruct HQ as [shards [Hp [Hd [He Hg]]]]. exists d. split; auto. split.
+  { unfold merge_dst. rewrite Hp. subst d. reflexivity. }
+  split; auto. intros z r Hz Hr.
+  destruct (parse_all_in' _ _ _ Hp z Hz) as [rs [H1 H2]].
+  unfold vis in *. rewrite He. rewrite H1 in Hr. apply live_merged. exists rs; auto.
+Qed.
+Print Assumptions C35_merge_before_fix_under_dst_clean.
+Theorem C35_explode_before_fix_under_dst_clean :
+  forall (plan : op -> nat -> bool) (shuf_rename shuf_cleanup shuf_stale : shuffle),
+    (forall l, Permutation (shuf_rename l) l) -> (forall l, Permutation (shuf_stale l) l) ->
+    forall (s0 : fs) (c : zname), no_dup s0 -> explode_dst_clean s0 c ->
+    forall r w, run_explode_before_fix plan shuf_rename shuf_cleanup shuf_stale s0 c = (r, w) ->
+    Forall no_dup (crash_states w) /\
+    forall x, r = ROk x ->
+      (forall r, In r (vis s0 c) -> vis (w_fs w) (ZSimple r) = [r]) /\
+      ((forall r, c <> ZSimple r) -> w_fs w (PZ c) = None).
+Proof.
+  intros plan sr sc st Hperm Hperm' s0 c Hnd Hm r w E.
+  destruct (eff s0 c) as [rs|] eqn:He.
+  - assert (Hm' : forall r0, In r0 (alive rs) -> s0 (PMeta (ZSimple (rm_id r0))) = None \/ ZSimple (rm_id r0) = c \/
+                    (false = true /\ s0 (PZ (ZSimple (rm_id r0))) = None)).
+    { intros r0 Hr0. destruct (Hm rs r0 He Hr0) as [H|H]; auto. }
+    destruct (hoare_run _ _ _ _ s0 _ w (explode_spec plan sr sc st Hperm Hperm' s0 Hnd c rs He false Hm') eq_refl Hnd E) as [HQ HS].
+    split; [exact HS|]. intros x ->. exact HQ.
+  - destruct (hoare_run _ _ _ _ s0 _ w (explode_spec_none plan sr sc st false s0 c Hnd He) eq_refl Hnd E) as [HQ HS].
+    split; [exact HS|]. intros x ->. discriminate.
+Qed.
+Print Assumptions C35_explode_before_fix_under_dst_clean.
+
+(** ======================= the orphan hypothesis cannot be dropped in this model ======================= *)
+(** a shard whose file name lies about its content (named like repo 1's shard, holding repo 2 tombstoned by its
+    own sidecar): the repaired Explode removes that sidecar, a kill right there shows repo 2 twice *)
+Theorem C35_explode_no_duplicate_visibility_needs_orphan_hypothesis :
+  exists (plan : op -> nat -> bool) (sr sc st : shuffle) (s0 : fs) (c : zname) (r : res) (w : world) (s : fs),
+    (forall l, sr l = l) /\ (forall l, st l = l) /\ no_dup s0 /\
+    run_explode plan sr sc st s0 c = (r, w) /\ In s (crash_states w) /\ ~ no_dup s.
+Proof. exact explode_no_duplicate_visibility_needs_orphan_hypothesis. Qed.
+Print Assumptions C35_explode_no_duplicate_visibility_needs_orphan_hypothesis.
 
 (** ---- non-vacuity: a concrete directory satisfying the hypotheses, on which the programs succeed, fail, and
     are interrupted *)
@@ -89,14 +228,6 @@ Definition ex_files : list (path * node) :=
     (PMeta (ZCompound [4; 3]), File (CMeta [ex_rm 4 40 true; ex_rm 3 30 false])) ]%N.
 Definition ex_s0 : fs := mkfs ex_files.
 
-Lemma mkfs_vis_in : forall l z r, In r (vis (mkfs l) z) -> exists n, In (PZ z, n) l.
-Proof.
-  intros l z r H. unfold vis, eff, mkfs in H.
-  destruct (find (fun e => if path_eq_dec (fst e) (PZ z) then true else false) l) as [e|] eqn:E; [|destruct H].
-  apply find_some in E. destruct E as [E1 E2].
-  destruct (path_eq_dec (fst e) (PZ z)) as [E3|]; [|discriminate].
-  exists (snd e). rewrite <- E3. destruct e; auto.
-Qed.
 Lemma ex_vis : forall z r, In r (vis ex_s0 z) ->
   (z = ZSimple 1 /\ r = 1 \/ z = ZSimple 2 /\ r = 2 \/ z = ZCompound [4;3] /\ r = 3)%N.
 Proof.
@@ -110,17 +241,18 @@ Proof.
   destruct H1 as [[-> ->]|[[-> ->]|[-> ->]]]; destruct H2 as [[-> E]|[[-> E]|[-> E]]]; auto; discriminate.
 Qed.
 Definition ex_names := [ZSimple 1; ZCompound [4; 3]; ZSimple 2]%N.
-Definition no_faults : op -> nat -> bool := fun _ _ => false.
 Example ex_merge_dst : merge_dst ex_s0 ex_names = Some (ZCompound [3; 2; 1]%N).
 Proof. vm_compute. reflexivity. Qed.
 Example ex_merge_clean : merge_dst_clean ex_s0 ex_names.
 Proof. intros d H. rewrite ex_merge_dst in H. inversion H; subst. left. reflexivity. Qed.
+Example ex_merge_orphan : merge_dst_sidecar_orphan ex_s0 ex_names.
+Proof. exact (merge_clean_orphan _ _ ex_merge_clean). Qed.
 (** success: returns the compound of the three live repos (the tombstoned r4 is dropped) *)
 Example ex_merge_ok : fst (run_merge no_faults ex_s0 ex_names) = ROk (Some (ZCompound [3; 2; 1]%N)).
 Proof. vm_compute. reflexivity. Qed.
 Example ex_merge_ok_vis :
   vis (w_fs (snd (run_merge no_faults ex_s0 ex_names))) (ZCompound [3; 2; 1]%N) = [3; 2; 1]%N /\
-  length (crash_states (snd (run_merge no_faults ex_s0 ex_names))) = 13.
+  length (crash_states (snd (run_merge no_faults ex_s0 ex_names))) = 14.
 Proof. vm_compute. auto. Qed.
 (** a failing removal of the second input: error, compound stays invisible, the first input is already gone *)
 Definition ex_fault : op -> nat -> bool :=
@@ -136,14 +268,54 @@ Proof.
   intros rs r H Hr. left. vm_compute in H. inversion H; subst rs. clear H.
   vm_compute in Hr. destruct Hr as [<-|[]]. reflexivity.
 Qed.
+Example ex_explode_orphan : explode_dst_sidecar_orphan ex_s0 (ZCompound [4; 3]%N).
+Proof. exact (explode_clean_orphan _ _ ex_explode_clean). Qed.
 Example ex_explode_ok :
-  let rw := run_explode no_faults (fun l => l) (fun l => rev l) ex_s0 (ZCompound [4; 3]%N) in
+  let rw := run_explode no_faults (fun l => l) (fun l => rev l) (fun l => l) ex_s0 (ZCompound [4; 3]%N) in
   fst rw = ROk None /\ vis (w_fs (snd rw)) (ZSimple 3%N) = [3%N] /\ w_fs (snd rw) (PZ (ZCompound [4; 3]%N)) = None /\
   w_fs (snd rw) (PMeta (ZCompound [4; 3]%N)) = None.
 Proof. vm_compute. auto. Qed.
 (** a directory squats on r3's shard name: the rename fails naturally; Explode now reports it *)
 Definition ex_s1 : fs := upd (upd ex_s0 (PZ (ZSimple 1%N)) None) (PZ (ZSimple 3%N)) (Some Dir).
 Example ex_explode_rename_fails :
-  let rw := run_explode no_faults (fun l => l) (fun l => l) ex_s1 (ZCompound [4; 3]%N) in
+  let rw := run_explode no_faults (fun l => l) (fun l => l) (fun l => l) ex_s1 (ZCompound [4; 3]%N) in
   fst rw = RErr /\ vis (w_fs (snd rw)) (ZSimple 3%N) = [].
 Proof. vm_compute. auto. Qed.
+
+(** ---- non-vacuity of the orphan hypothesis in its interesting case: directories WITH an orphan sidecar at the
+    destination satisfy it, the repaired drivers succeed on them and every repository is alive afterwards *)
+Example ex_ad_merge_no_dup : no_dup ad_merge_s0.
+Proof. apply no_dup_b_sound. vm_compute. reflexivity. Qed.
+Example ex_ad_merge_orphan :
+  merge_dst_sidecar_orphan ad_merge_s0 ad_merge_names /\ ~ merge_dst_clean ad_merge_s0 ad_merge_names.
+Proof.
+  assert (E : merge_dst ad_merge_s0 ad_merge_names = Some (ZCompound [2; 1]%N)) by (vm_compute; reflexivity).
+  split.
+  - intros d H. rewrite E in H. inversion H; subst. right; left. vm_compute. reflexivity.
+  - intro H. destruct (H _ E) as [H1|H1]; [vm_compute in H1; discriminate|].
+    simpl in H1. destruct H1 as [H1|[H1|[]]]; discriminate.
+Qed.
+Example ex_ad_merge_ok :
+  let X := run_merge no_faults ad_merge_s0 ad_merge_names in
+  fst X = ROk (Some (ZCompound [2; 1]%N)) /\ vis (w_fs (snd X)) (ZCompound [2; 1]%N) = [2; 1]%N /\
+  w_fs (snd X) (PMeta (ZCompound [2; 1]%N)) = None.
+Proof. exact merge_orphan_after_fix. Qed.
+Example ex_ad_explode_orphan :
+  no_dup ad_expl_s0 /\ explode_dst_sidecar_orphan ad_expl_s0 (ZCompound [2; 1]%N) /\
+  ~ explode_dst_clean ad_expl_s0 (ZCompound [2; 1]%N).
+Proof.
+  assert (E : eff ad_expl_s0 (ZCompound [2; 1]%N) = Some [rm 2 20 false; rm 1 10 false]) by (vm_compute; reflexivity).
+  split; [apply no_dup_b_sound; vm_compute; reflexivity|]. split.
+  - intros rs r H Hr. rewrite E in H. inversion H; subst rs. right; left.
+    simpl in Hr. destruct Hr as [<-|[<-|[]]]; vm_compute; reflexivity.
+  - intro H. destruct (H _ (rm 1 10 false) E) as [H1|H1]; [simpl; auto|vm_compute in H1; discriminate|discriminate].
+Qed.
+Example ex_ad_explode_ok :
+  let X := run_explode no_faults idsh idsh idsh ad_expl_s0 (ZCompound [2; 1]%N) in
+  fst X = ROk None /\ vis (w_fs (snd X)) (ZSimple 1%N) = [1%N] /\ vis (w_fs (snd X)) (ZSimple 2%N) = [2%N] /\
+  w_fs (snd X) (PMeta (ZSimple 1%N)) = None.
+Proof. exact explode_orphan_after_fix. Qed.
+(** the whole chain (kill of Explode between compound and sidecar; re-index; merge of the same set): untruthful
+    success before the repair, none after *)
+Example ex_chain : chain_check false = true /\ chain_check true = false.
+Proof. split; [exact chain_before_fix|exact chain_after_fix]. Qed.
